@@ -403,7 +403,14 @@ impl<'a> DataRowIteratorTestData<'a> {
                     EntryIndex::Entry {
                         entry_index,
                         signal_index: _,
-                    } => row_result.entries[*entry_index] = DataEntry::X,
+                    } => {
+                        // A column can be both the expected value of a bidirectional signal
+                        // and the value of an input called `<name>_out`; such an entry
+                        // is still needed as an input
+                        if !self.entry_is_input(*entry_index) {
+                            row_result.entries[*entry_index] = DataEntry::X
+                        }
+                    }
                     EntryIndex::Default { signal_index: _ } => continue,
                 }
             }
